@@ -17,6 +17,7 @@ import RubatoProofs.Fft.Routing
 import RubatoProofs.Async.FixedIn
 import RubatoProofs.Async.FixedOut
 import RubatoProofs.Async.Stream
+import RubatoModel.FftUnitModel
 
 set_option linter.unusedSectionVars false
 set_option linter.unusedVariables false
@@ -80,6 +81,40 @@ theorem fftIn_and_fftIo_same_function {u : FftUnit σ υ} {z : σ} {ri ro c1 sub
   have e1 := (fftIn_stream h1 hu cs1 hv1 ha1).1
   have e2 := (fftIo_stream h2 (by rw [← hsame.1, ← hsame.2]; exact hu) cs2 hv2 ha2).1
   rw [e1, e2, hin, hsame.1]
+
+/-! ### the modelled `resample_unit` (naive-DFT twin, `FftUnitModel.lean`) is such a unit
+
+[law-free] The three stream theorems above take ANY unit whose output blocks have `fft_out` frames.  The unit the driver
+runs against the real crate (filter spectrum, spectrum product, inverse transform, overlap-add) meets that hypothesis for
+every arithmetic instance, so they apply to it: what the correspondence compares sample by sample is an instance of the
+`u` of the theorems. -/
+
+theorem modelled_unit_block_length {ρ σ : Type} [RNum ρ] [SNum ρ σ] [STrig σ] (t : UnitTables σ) (fi : Nat) :
+    ∀ (st : Array σ) (b : List σ), b.length = fi →
+      ((UnitTables.unit (ρ := ρ) t).run st b).1.length = t.fftOut :=
+  fun st b _ => UnitTables.run_length (ρ := ρ) t st b
+
+/-- FftFixedInOut over the modelled unit: output stream = reference stream of the input, for every history -/
+theorem fftIo_stream_is_reference_modelled_unit {ρ σ : Type} [RNum ρ] [SNum ρ σ] [STrig σ]
+    (t : UnitTables σ) {z : σ} {ri ro chunk sub : Nat} {s : FState σ (Array σ)}
+    (h : FState.init DivArith.exact (UnitTables.unit (ρ := ρ) t) z .fftIo ri ro chunk sub 1 = .ok s)
+    (ht : t.fftOut = s.fftOut)
+    (cs : List (Call σ)) (hv : ValidHist (UnitTables.unit (ρ := ρ) t) s cs) (ha : Active1 cs) :
+    (runStream (UnitTables.unit (ρ := ρ) t) s ([], []) cs).2.2 =
+      refStream (UnitTables.unit (ρ := ρ) t) s.fftIn (UnitTables.unit (ρ := ρ) t).init
+        (runStream (UnitTables.unit (ρ := ρ) t) s ([], []) cs).2.1 :=
+  fftIo_stream_is_reference h (fun st b hb => by rw [← ht]; exact modelled_unit_block_length (ρ := ρ) t _ st b hb) cs hv ha
+
+/-- FftFixedIn over the modelled unit -/
+theorem fftIn_stream_is_reference_modelled_unit {ρ σ : Type} [RNum ρ] [SNum ρ σ] [STrig σ]
+    (t : UnitTables σ) {z : σ} {ri ro chunk sub : Nat} {s : FState σ (Array σ)}
+    (h : FState.init DivArith.exact (UnitTables.unit (ρ := ρ) t) z .fftIn ri ro chunk sub 1 = .ok s)
+    (ht : t.fftOut = s.fftOut)
+    (cs : List (Call σ)) (hv : ValidHist (UnitTables.unit (ρ := ρ) t) s cs) (ha : Active1 cs) :
+    (runStream (UnitTables.unit (ρ := ρ) t) s ([], []) cs).2.2 =
+      refStream (UnitTables.unit (ρ := ρ) t) s.fftIn (UnitTables.unit (ρ := ρ) t).init
+        (runStream (UnitTables.unit (ρ := ρ) t) s ([], []) cs).2.1 :=
+  (fftIn_stream_is_reference h (fun st b hb => by rw [← ht]; exact modelled_unit_block_length (ρ := ρ) t _ st b hb) cs hv ha).1
 
 /-! ### asynchronous types: instants do not depend on the chunking nor on the variant -/
 
